@@ -7,6 +7,11 @@ import time
 
 ROOT = os.path.dirname(os.path.dirname(os.path.abspath(__file__)))
 EVIDENCE_DIR = os.path.join(ROOT, 'evidence')
+# evidence describes runs against /repo itself: a run pointed at a scratch copy (seed evaluation, regression over kept seeds) writes its
+# file elsewhere, so that it can never replace what the registered commands produced
+if os.path.realpath(os.environ.get('VERIF_REPO', '/repo')) != os.path.realpath('/repo'):
+    import tempfile as _tf
+    EVIDENCE_DIR = os.path.join(_tf.gettempdir(), 'verif-evidence-scratch-%d' % os.getuid())
 REPLAY_DIR = os.path.join(ROOT, 'replays')
 KNOWN_FILE = os.path.join(ROOT, 'known_findings.json')
 
